@@ -111,6 +111,18 @@ func runC14(c *Ctx) {
 			ok, w := allHave(fm.At(cs), mustRe(`^new\(Int\)(~\d+)?\.SetBytes\(.*\) <= new\(Int\)(~\d+)?\.Div\(aquahash\.maxUint256, Block#0\.Header\(\)\.Difficulty\)$`))
 			c.Ob("C14-R1", "mine: a seal is reported only when result <= 2^256 / difficulty", c.Position(cs.Pos()), ok, w)
 		}
+		// on every path that reports a seal the returned header's mix digest was just set to what VerifySeal expects:
+		// the ethash digest of this nonce for version 1, the zero digest for the argon2id versions (a header that
+		// keeps the digest it came with is rejected by the node's own verifier)
+		var sealStates []*pstate
+		for _, cs := range callSites(mine, `^Block\.WithSeal$`) {
+			sealStates = append(sealStates, fm.At(cs)...)
+		}
+		hdr := `types\.CopyHeader\(Block#0\.Header\(\)\)`
+		c.mustStates("C14-R1", mine, "report of a found seal", sealStates, []LitReq{
+			{Name: "the sealed header's mix digest is set on every reporting path (ethash digest / zero digest)", Re: `^store:` + hdr + `\.MixDigest=common\.BytesToHash\((new\(\[32\]byte\)\[:32\]|dyn:ethashdag\.HashimotoFull\(.*, ` + PH + `\)#0)\)$`},
+			{Name: "the sealed header's nonce is the nonce just tried", Re: `^store:` + hdr + `\.Nonce=types\.EncodeNonce\(` + PH + `\)$`},
+		})
 		if len(callSites(mine, `^Block\.WithSeal$`)) == 0 {
 			c.Ob("C14-R1", "mine reports found seals", c.FnPos(mine), false, "")
 		}
